@@ -55,6 +55,7 @@ pub const NOTE_KINDS: &[&str] = &[
     "custom_scalar_structured",
     "abstract_type_object",
     "size_hint_lies",
+    "big_list",
 ];
 
 #[derive(Clone, Debug)]
@@ -64,6 +65,9 @@ pub struct World {
     pub fault_permille: u32,
     /// enabled fault kinds, bit i = FAULT_KINDS[i]
     pub mask: u32,
+    /// swarm knob: 0 = lists of 0-3 items; 1 = top-level lists up to 40; 2 = up to 300
+    /// (thresholds such as "every 64 / 128 fields" are otherwise never crossed)
+    pub list_scale: u32,
     pub overrides: BTreeMap<String, Outcome>,
     /// outcomes actually consulted in this run (key → outcome), for the replay file
     pub consulted: BTreeMap<String, Outcome>,
@@ -80,6 +84,7 @@ impl World {
             seed,
             fault_permille,
             mask,
+            list_scale: 0,
             overrides: BTreeMap::new(),
             consulted: BTreeMap::new(),
             fired: BTreeMap::new(),
@@ -92,6 +97,7 @@ impl World {
             seed: self.seed,
             fault_permille: self.fault_permille,
             mask: self.mask,
+            list_scale: self.list_scale,
             overrides: self.overrides.clone(),
             consulted: BTreeMap::new(),
             fired: BTreeMap::new(),
@@ -120,7 +126,9 @@ impl World {
                 hash_str(field),
             ]));
             let mut fired = vec![];
-            let o = self.gen(schema, ty, &mut rng, 0, true, &mut fired);
+            // long lists only for root fields: nested long lists multiply
+            let depth0 = if path.contains('/') { 1 } else { 0 };
+            let o = self.gen(schema, ty, &mut rng, depth0, true, &mut fired);
             for f in fired {
                 *self.fired.entry(f).or_default() += 1;
             }
@@ -219,6 +227,12 @@ impl World {
             Type::List(inner) | Type::NonNullList(inner) => {
                 let n = if depth >= 2 {
                     rng.below(3)
+                } else if depth == 0 && top && self.list_scale > 0 && rng.chance(1, 2) {
+                    fired.push("big_list");
+                    match self.list_scale {
+                        1 => rng.range(10, 40),
+                        _ => rng.range(60, 300),
+                    }
                 } else {
                     rng.below(4)
                 };
